@@ -65,6 +65,11 @@ def gen_case(rng, quick):
         obs["XSHERANCAVG_total" if proc != "CC" else "XSCHORUSCC_total"] = [dict(x=0.25, Q2=20.0, y=0.5), dict(x=0.5, Q2=40.0, y=0.25)]
         obs["F1_total" if proc != "CC" else "FW_total"] = [dict(x=0.125, Q2=30.0, y=0.75)]      # cross sections whose names do not start with XS
     if rng.random() < 0.35:
+        # the same observable once more under its short name (a flavourless name means _total), with other points: two separate entries of the output
+        k = rng.choice(["F2", "FL"])
+        obs[k + "_total"] = obs.get(k + "_total") or [dict(x=0.25, Q2=50.0)]
+        obs[k] = [dict(x=rng.choice([0.125, 0.5]), Q2=float(rng.randint(3, 300))) for _ in range(rng.choice([1, 2]))]
+    if rng.random() < 0.35:
         obs["FL_light" if "FL_light" not in obs else "F2_charm"] = []           # an observable without points
     return dict(theory=th, obs=dict(prDIS=proc), observables=obs, none_obs=rng.random() < 0.2)
 
